@@ -135,8 +135,11 @@ def _events(src):
     elif k == "re":
         r = c05.from_abs(src["re"])
         A = src["re"]
+        multi = any(len(x) > 1 for x in c05._syms(A))
         for name, pr, pa_ in (("simple", R.print_regexp_simple, parse_simple_regexp), ("full", R.print_regexp, parse_regexp),
                               ("str", str, parse_regexp)):
+            if multi and name == "simple":
+                continue          # the simple syntax has one-character symbols only: ab means a.b there
             text, exc = guarded(lambda: pr(r))
             ev = {"op": "roundtrip_re", "syntax": name, "re": A, "exc": exc, "src": src}
             if exc == "none":
@@ -146,6 +149,9 @@ def _events(src):
                 if ev["exc"] == "none":
                     ev["parsed"] = ab.regexp(r2)
                     ev["text2"] = ab.enc(pr(r2))
+                    if multi:
+                        # identifiers with several characters: languages compared over character words
+                        ev["sem"], ev["parsed_sem"] = c05.spell(A), c05.spell(ev["parsed"])
             yield ev
     elif k == "cfg_rules":
         G = cfgsrc.build(src)
@@ -188,7 +194,10 @@ def drive(task):
                 yield from events({"kind": "re", "re": ab.regexp(r)})
     elif k == "rnd_re":
         for i in range(task["count"]):
-            r = U.random_regexp(rng, rng.choice([2, 3, 4, 5, 6, 8]), rng.choice(["ab", "abc", "a", "xyz", "01"]))
+            syms = rng.choice(["ab", "abc", "a", "xyz", "01"])
+            if i % 5 == 4:
+                syms = rng.choice([["ab", "a", "b"], ["q1", "q", "x_1"], ["aa", "a"], ["A", "Ab", "b"]])    # identifiers
+            r = U.random_regexp(rng, rng.choice([2, 3, 4, 5, 6, 8]), syms)
             yield from events({"kind": "re", "re": ab.regexp(r)})
     elif k == "cfg":
         for i, rules in enumerate(cfgsrc.small_grammars(3)):
@@ -215,7 +224,8 @@ MODELS = {"quick": [("RoundTrip", "RoundTrip_dfa.cfg", "print_dfa then the line 
 RULE = ("DFAs (DFA(3,{a,b}) under five naming schemes, random incl. empty alphabet and digits), NFAs (NFA(2,{a,b}), "
         "random; epsilon in {U+03B5,_,e}), PDAs (2-state universe, hand-written, random), TMs (all 169 one-state "
         "machines also with empty input alphabet, random with blank in {_,U+25A1,B}), regular expressions (all trees "
-        "<= 2 (3) operators, random) in three syntaxes, simple-format grammars; print -> parse -> project; "
+        "<= 2 (3) operators, random; every fifth random tree with identifiers of 2-3 characters, in the two syntaxes that "
+        "have identifiers) in three syntaxes, simple-format grammars; print -> parse -> project; "
         "non-trivial = object has >= 2 transitions / operators / rules; distinct = distinct (kind, object)")
 
 
